@@ -123,7 +123,7 @@ TResultSeen == /\ Ev("ResultSeen")
                /\ Chk("ResultOnlyForCurrentJob", Tr[l].a <= mainJob /\ Tr[l].b = mainJob, <<Tr[l].a, Tr[l].b, mainJob>>)
                /\ Un(vars)
 TQuit == Ev("Quit") /\ quitting' = TRUE /\ Un(<<comms, par, q, ackSelf, ackKids, job, inSearch, search, bestCnt, nGo, nBest, nDone, mainJob, sess>>)
-TOther == /\ \E e \in {"Notify", "WaitRet", "QuitSent", "QuitAckCall", "OptPending", "OptsSwap", "PonderHit", "StopReq", "Limits", "LimitsPH", "Meta"} : Ev(e)
+TOther == /\ \E e \in {"Notify", "WaitRet", "QuitSent", "QuitAckCall", "OptPending", "OptsSwap", "PonderHit", "StopReq", "StopSet", "Limits", "LimitsPH", "Meta"} : Ev(e)
           /\ Un(vars)
 (* ---- C05 session contract on the same traces ---- *)
 TCmd == /\ Ev("Cmd")
